@@ -55,8 +55,7 @@ var c21pfTable = map[string]c21pfClass{
 	// interface.go
 	"98dd0dcb1d": {"doc", "1.25 added a Deprecated: paragraph to ParseDir's comment"},
 	// parser.go
-	"a67a06aa12": {"doc", "package comment reworded in 1.25"},
-	"4b79ac6f50": {"doc", "package comment: paragraph about x/tools/go/packages added in 1.25"},
+	"67967ac05d": {"doc", "package comment reworded in 1.25 (new first paragraphs, and a closing paragraph about x/tools/go/packages)"},
 	"32dd8a1b38": {"semantic drift-linedirective", "1.25 added lineFor (physical line, ignores //line); consumeComment: endline from the physical line; the fork uses the //line-adjusted p.file.Line"},
 	"ed5727882b": {"semantic drift-linedirective", "consumeCommentGroup: group break decided on physical (1.25) vs adjusted (fork) lines"},
 	"eb9d667426": {"semantic drift-linedirective", "next: same-line test for line comments on physical (1.25) vs adjusted (fork) lines"},
@@ -213,62 +212,91 @@ type c21pfDiffHunk struct {
 }
 
 func c21pfDiff(a, b []string) []c21pfDiffHunk {
-	pre := 0
-	for pre < len(a) && pre < len(b) && a[pre] == b[pre] {
-		pre++
-	}
-	suf := 0
-	for suf < len(a)-pre && suf < len(b)-pre && a[len(a)-1-suf] == b[len(b)-1-suf] {
-		suf++
-	}
-	am, bm := a[pre:len(a)-suf], b[pre:len(b)-suf]
-	n, m := len(am), len(bm)
-	// lcs[i][j] = LCS length of am[i:], bm[j:]
-	lcs := make([][]int32, n+1)
-	for i := range lcs {
-		lcs[i] = make([]int32, m+1)
-	}
-	for i := n - 1; i >= 0; i-- {
-		for j := m - 1; j >= 0; j-- {
-			if am[i] == bm[j] {
-				lcs[i][j] = lcs[i+1][j+1] + 1
-			} else if lcs[i+1][j] >= lcs[i][j+1] {
-				lcs[i][j] = lcs[i+1][j]
-			} else {
-				lcs[i][j] = lcs[i][j+1]
+	// Myers' O(ND) greedy diff; the trace of furthest-reaching x per diagonal is kept per d for backtracking.
+	n, m := len(a), len(b)
+	max := n + m
+	v := make([]int, 2*max+2)
+	var trace [][]int
+	done := false
+	for d := 0; d <= max && !done; d++ {
+		snap := make([]int, 2*d+3)
+		// snapshot of v for diagonals -d-1..d+1 (as left by round d-1)
+		for k := -d - 1; k <= d+1; k++ {
+			if k+max >= 0 && k+max < len(v) {
+				snap[k+d+1] = v[k+max]
 			}
 		}
+		trace = append(trace, snap)
+		for k := -d; k <= d; k += 2 {
+			var x int
+			if k == -d || (k != d && v[k-1+max] < v[k+1+max]) {
+				x = v[k+1+max]
+			} else {
+				x = v[k-1+max] + 1
+			}
+			y := x - k
+			for x < n && y < m && a[x] == b[y] {
+				x++
+				y++
+			}
+			v[k+max] = x
+			if x >= n && y >= m {
+				done = true
+				break
+			}
+		}
+	}
+	// backtrack: edits in reverse order
+	type edit struct {
+		del  bool
+		i, j int // a index (del) / b index (add); for both the position in the other file
+	}
+	var edits []edit
+	x, y := n, m
+	for d := len(trace) - 1; d > 0; d-- {
+		snap := trace[d]
+		at := func(k int) int { return snap[k+d+1] }
+		k := x - y
+		var pk int
+		if k == -d || (k != d && at(k-1) < at(k+1)) {
+			pk = k + 1
+		} else {
+			pk = k - 1
+		}
+		px := at(pk)
+		py := px - pk
+		for x > px && y > py {
+			x--
+			y--
+		}
+		if x == px {
+			// came down: insertion of b[py]
+			edits = append(edits, edit{false, px, py})
+		} else {
+			edits = append(edits, edit{true, px, py})
+		}
+		x, y = px, py
 	}
 	var out []c21pfDiffHunk
-	var cur *c21pfDiffHunk
-	flush := func() {
-		if cur != nil {
-			out = append(out, *cur)
-			cur = nil
-		}
-	}
-	i, j := 0, 0
-	for i < n || j < m {
-		switch {
-		case i < n && j < m && am[i] == bm[j]:
-			flush()
-			i++
-			j++
-		case i < n && (j == m || lcs[i+1][j] >= lcs[i][j+1]):
-			if cur == nil {
-				cur = &c21pfDiffHunk{aStart: pre + i + 1, bStart: pre + j + 1}
+	for e := len(edits) - 1; e >= 0; e-- {
+		ed := edits[e]
+		k := len(out) - 1
+		if k >= 0 && out[k].aStart-1+len(out[k].del) == ed.i && out[k].bStart-1+len(out[k].add) == ed.j {
+			if ed.del {
+				out[k].del = append(out[k].del, a[ed.i])
+			} else {
+				out[k].add = append(out[k].add, b[ed.j])
 			}
-			cur.del = append(cur.del, am[i])
-			i++
-		default:
-			if cur == nil {
-				cur = &c21pfDiffHunk{aStart: pre + i + 1, bStart: pre + j + 1}
-			}
-			cur.add = append(cur.add, bm[j])
-			j++
+			continue
 		}
+		h := c21pfDiffHunk{aStart: ed.i + 1, bStart: ed.j + 1}
+		if ed.del {
+			h.del = []string{a[ed.i]}
+		} else {
+			h.add = []string{b[ed.j]}
+		}
+		out = append(out, h)
 	}
-	flush()
 	// merge hunks separated by at most 6 common lines (what `diff -u` shows as one hunk)
 	var merged []c21pfDiffHunk
 	for _, h := range out {
